@@ -196,6 +196,25 @@ func runGio(c *Ctx) {
 			})
 			a.expect("R15", name+"/detaches-stream-and-func", 1, "paths of Close")
 		}
+		// the stream and the close function are detached by Close only: no other method of the type
+		// forgets them (an io.EOF from the wrapped stream is not a Close)
+		for _, od := range pkgDecls(c, "iocloser") {
+			od := od
+			if rn := core.RecvNamed(od.Obj); rn == nil || rn.Obj().Name() != tn.typ || od.Obj.Name() == "Close" {
+				continue
+			}
+			ast.Inspect(od.Decl.Body, func(n ast.Node) bool {
+				for _, f := range []string{sf, cf} {
+					if rhs, ok := assignsFieldNode(od, n, f); ok {
+						bad := rhs == nil || isNilExpr(rhs, &core.Frame{Pkg: od.Pkg})
+						a.note("R15", core.FuncName(od.Obj)+"/detached-only-by-close", n.Pos(), bad,
+							"the wrapped stream and the close function are cleared by Close only",
+							core.FuncName(od.Obj)+" clears "+f+": the wrapper stops passing data through (or forgets its close function) although Close was not called", nil)
+					}
+				}
+				return true
+			})
+		}
 		if d := c.declByName("R15", "iocloser", tn.typ, tn.io); d != nil {
 			name := core.FuncName(d.Obj)
 			c.Walk("R15", &core.Config{Follow: samePkgFollow(d.Pkg.PkgPath)}, core.Entry{Decl: d}, func(p *core.Path) {
@@ -701,6 +720,36 @@ func runGcodec(c *Ctx) {
 		a.note("R14b", "commonprefix/no-rune-encoding-of-bytes", token.NoPos, false, sprintf("no conversion string(<integer>) in the package (%d conversions inspected)", n), "", nil)
 	} else {
 		c.MissingAnchor("R14b", "package commonprefix")
+	}
+	// --- R14b commonprefix works on bytes: no iteration over the runes of a string, no cutset-based trimming
+	if pkg := c.Prog.Pkg("commonprefix"); pkg != nil {
+		nr, nt := 0, 0
+		for _, d := range pkgDecls(c, "commonprefix") {
+			d := d
+			ast.Inspect(d.Decl.Body, func(n ast.Node) bool {
+				switch x := n.(type) {
+				case *ast.RangeStmt:
+					if t := d.Pkg.TypesInfo.TypeOf(x.X); t != nil && isBasic(t, types.IsString) {
+						nr++
+						a.note("R14b", core.FuncName(d.Obj)+"/no-range-over-string", x.Pos(), true, "",
+							"the function ranges over a string: the loop variable steps over rune starts, not bytes, so a byte-wise comparison skips continuation bytes and cuts a multi-byte character in the middle", nil)
+					}
+				case *ast.CallExpr:
+					if f, _ := typeutil.Callee(d.Pkg.TypesInfo, x).(*types.Func); f != nil && f.Pkg() != nil && f.Pkg().Path() == "strings" {
+						switch f.Name() {
+						case "Trim", "TrimLeft", "TrimRight":
+							nt++
+							a.note("R14b", core.FuncName(d.Obj)+"/no-cutset-trimming", x.Pos(), true, "",
+								"strings."+f.Name()+" treats its second argument as a SET of characters, not as a prefix: it keeps stripping every leading character that occurs anywhere in the computed prefix", nil)
+						}
+					}
+				}
+				return true
+			})
+		}
+		if nr == 0 && nt == 0 {
+			a.note("R14b", "commonprefix/byte-wise-only", token.NoPos, false, "no range over a string and no cutset-based strings.Trim* in the package", "", nil)
+		}
 	}
 	// --- R14c prng: a new word is drawn from the source only when the buffered word is used up
 	if d := c.Prog.LookupFunc("prng", "randReader", "Read"); d != nil {
